@@ -128,6 +128,16 @@ int main(void) {
             raw = (U32)strtoul(strtok(NULL, " "), NULL, 10); ll0 = (U32)atoi(strtok(NULL, " "));
             ob = ZSTD_finalizeOffBase(raw, rep, ll0); ZSTD_updateRep(rep, ob, ll0);
             printf("%u %u %u %u\n", ob, rep[0], rep[1], rep[2]);
+        } else if (!strcmp(op, "fhdr")) {
+            /* fhdr <windowLog> <pledged> <contentSizeFlag> <dictID> <noDictID> <checksum> <magicless> : ZSTD_writeFrameHeader -> hex */
+            ZSTD_CCtx_params prm; unsigned char buf[32]; size_t r, i; unsigned long long pledged; U32 did;
+            memset(&prm, 0, sizeof prm);
+            prm.cParams.windowLog = (unsigned)strtoul(strtok(NULL, " "), NULL, 10); pledged = strtoull(strtok(NULL, " "), NULL, 10);
+            prm.fParams.contentSizeFlag = atoi(strtok(NULL, " ")); did = (U32)strtoul(strtok(NULL, " "), NULL, 10);
+            prm.fParams.noDictIDFlag = atoi(strtok(NULL, " ")); prm.fParams.checksumFlag = atoi(strtok(NULL, " "));
+            prm.format = atoi(strtok(NULL, " ")) ? ZSTD_f_zstd1_magicless : ZSTD_f_zstd1;
+            r = ZSTD_writeFrameHeader(buf, sizeof buf, &prm, pledged, did);
+            if (ZSTD_isError(r)) printf("err\n"); else { for (i = 0; i < r; i++) printf("%02x", buf[i]); putchar('\n'); }
         } else if (!strcmp(op, "codes")) {
             U32 ll = (U32)strtoul(strtok(NULL, " "), NULL, 10), ml = (U32)strtoul(strtok(NULL, " "), NULL, 10);
             printf("%u %u\n", ZSTD_LLcode(ll), ZSTD_MLcode(ml));
